@@ -341,7 +341,15 @@ class FSM(addons.AddonPersistence, block.SBlock):
             return
         self.log_debug("timer: %.3fs before %s", duration, timed_event)
         self._active_timer = asyncio.get_running_loop().call_later(
-            duration, self.event, timed_event)
+            duration, self._timer_expired, timed_event)
+
+    def _timer_expired(self, timed_event: str|block.EventType) -> None:
+        """Deliver the timed event."""
+        # the timer is no longer pending; should the timed event be rejected, the FSM
+        # stays in the current state without a timer and get_state() must not report
+        # the past expiration time
+        self._active_timer = None
+        self.event(timed_event)
 
     def _start_timer(
             self, duration: Optional[float|str], timed_event: str|block.EventType) -> None:
